@@ -307,8 +307,17 @@ func c15BothSucceed(c *core.Ctx, fn *ssa.Function, key string, br, both *ssa.Fun
 						bothNil[errOwner(b)] = true
 					}
 					// a private helper reported no error: what that implies about its arguments
-					if call, isCall := facts.Resolve(x).(*ssa.Call); isCall {
-						for tm := range errNilImpliedBy(call, br) {
+					var hcall *ssa.Call
+					switch y := facts.Resolve(x).(type) {
+					case *ssa.Call:
+						hcall = y
+					case *ssa.Extract:
+						if c2, isCall := y.Tuple.(*ssa.Call); isCall && y.Index == c2.Call.Signature().Results().Len()-1 {
+							hcall = c2
+						}
+					}
+					if hcall != nil {
+						for tm := range errNilImpliedBy(hcall, br) {
 							bothNil[tm] = true
 						}
 					}
@@ -530,13 +539,13 @@ func errNilImpliedBy(call *ssa.Call, br *ssa.Function) map[string]bool {
 		return nil
 	}
 	res := h.Signature.Results()
-	if res.Len() != 1 || res.At(0).Type().String() != "error" {
+	if res.Len() == 0 || res.At(res.Len()-1).Type().String() != "error" {
 		return nil
 	}
 	var inter map[string]bool
 	withParams(h, call, func() {
 		for _, r := range returnsOf(h) {
-			ev := facts.RetVal(r, 0)
+			ev := facts.RetVal(r, len(r.Results)-1)
 			if !facts.IsNilConst(ev) && facts.ProvablyNonNil(ev, r.Block()) {
 				continue
 			}
